@@ -7,9 +7,10 @@ use crate::compiler::{BytecodeChunk, Constant, Op, Register};
 use crate::error::{JsError, StackFrame};
 use crate::gc::{Gc, Guard};
 use crate::prelude::{math, *};
+use core::cmp::Ordering;
 use crate::value::{
     BytecodeFunction, CheapClone, ExoticObject, Guarded, JsFunction, JsObject, JsString, JsValue,
-    Property, PropertyKey, to_int32, to_uint32,
+    Property, PropertyKey, js_compare, to_int32, to_uint32,
 };
 
 use super::Interpreter;
@@ -2173,30 +2174,26 @@ impl BytecodeVM {
             }
 
             Op::Lt { dst, left, right } => {
-                let left_val = self.get_reg(left).to_number();
-                let right_val = self.get_reg(right).to_number();
-                self.set_reg(dst, JsValue::Boolean(left_val < right_val));
+                let ordering = js_compare(self.get_reg(left), self.get_reg(right));
+                self.set_reg(dst, JsValue::Boolean(matches!(ordering, Some(Ordering::Less))));
                 Ok(OpResult::Continue)
             }
 
             Op::LtEq { dst, left, right } => {
-                let left_val = self.get_reg(left).to_number();
-                let right_val = self.get_reg(right).to_number();
-                self.set_reg(dst, JsValue::Boolean(left_val <= right_val));
+                let ordering = js_compare(self.get_reg(left), self.get_reg(right));
+                self.set_reg(dst, JsValue::Boolean(matches!(ordering, Some(Ordering::Less | Ordering::Equal))));
                 Ok(OpResult::Continue)
             }
 
             Op::Gt { dst, left, right } => {
-                let left_val = self.get_reg(left).to_number();
-                let right_val = self.get_reg(right).to_number();
-                self.set_reg(dst, JsValue::Boolean(left_val > right_val));
+                let ordering = js_compare(self.get_reg(left), self.get_reg(right));
+                self.set_reg(dst, JsValue::Boolean(matches!(ordering, Some(Ordering::Greater))));
                 Ok(OpResult::Continue)
             }
 
             Op::GtEq { dst, left, right } => {
-                let left_val = self.get_reg(left).to_number();
-                let right_val = self.get_reg(right).to_number();
-                self.set_reg(dst, JsValue::Boolean(left_val >= right_val));
+                let ordering = js_compare(self.get_reg(left), self.get_reg(right));
+                self.set_reg(dst, JsValue::Boolean(matches!(ordering, Some(Ordering::Greater | Ordering::Equal))));
                 Ok(OpResult::Continue)
             }
 
